@@ -591,6 +591,12 @@ def sockNew (kind : Nat) (e : EP) : ResM (Option SockO × EP) := do
     freeB a
     return (none, e')
   let fd ← openFd
+  -- `pp_socket_set_fd_blocking`: a failing `fcntl (F_SETFL)` is reported, the half-made socket goes through `p_socket_free`
+  if !(← sysOk "fcntl") then
+    let e' ← setErr e
+    closeFd fd
+    freeB a
+    return (none, e')
   return (some ⟨a, some fd, kind, 0, 0⟩, e)
 
 /-- bind to a loopback port (through a temporary `PSocketAddress`) and listen -/
@@ -627,6 +633,12 @@ def sockAccept (s : SockO) (e : EP) : ResM (Char × SockO × Option SockO × EP)
     let e' ← setErr e
     closeFd fd
     return ('F', s', none, e')
+  -- `p_socket_new_from_fd` on the accepted descriptor: `fcntl (F_SETFL)` fails → the structure is released, `p_socket_accept` closes the descriptor
+  if !(← sysOk "fcntl") then
+    let e' ← setErr e
+    freeB a
+    closeFd fd
+    return ('F', s', none, e')
   return ('S', s', some ⟨a, some fd, 0, 2, 0⟩, e)
 
 /-- `p_socket_get_local_address` / `_remote_address` -/
@@ -648,6 +660,13 @@ def sockUdpEcho (s : SockO) (e : EP) : ResM (Char × Option Blk × EP) := do
   let some from_ ← malloc | return ('D', none, e)
   return ('S', some from_, e)
 
+/-- I/O on a socket that was closed (`p_socket_send`, `_receive`, `_shutdown`, `_set_buffer_size`, `_listen`, `_io_condition_wait`,
+    `_accept`): `pp_socket_check` reports "already closed"; only the first call finds the error pointer empty -/
+def sockIoClosed (s : SockO) (e : EP) : ResM (Char × SockO × EP) := do
+  deref (some s.self)
+  let e' ← setErr e
+  return ('F', s, e')
+
 def sockClose (s : SockO) : ResM SockO := do
   deref (some s.self)
   match s.fd with
@@ -665,6 +684,11 @@ def sockFromFd (e : EP) : ResM (Option SockO × EP) := do
   let fd ← openFd
   let some a ← malloc | do
     let e' ← setErr e
+    closeFd fd
+    return (none, e')
+  if !(← sysOk "fcntl") then
+    let e' ← setErr e
+    freeB a
     closeFd fd
     return (none, e')
   return (some ⟨a, some fd, 0, 0, 0⟩, e)
@@ -697,6 +721,13 @@ def semNew (name : Name) (create : Bool) (e : EP) : ResM (Option SemO × EP) := 
     let e' ← setErr e
     freeB a
     return (none, e')
+  -- `pp_semaphore_create_handle`: the first `sem_open` failing for another reason than "exists" is reported;
+  -- `p_semaphore_free` then releases the key and the structure
+  if !(← sysOk "sem_open") then
+    let e' ← setErr e
+    freeB key
+    freeB a
+    return (none, e')
   match ← nameTest name with
   | none => do
     nameCreate name 0
@@ -704,12 +735,12 @@ def semNew (name : Name) (create : Bool) (e : EP) : ResM (Option SemO × EP) := 
     return (some ⟨a, key, name, m, true⟩, e)
   | some _ =>
     if create then do
-      -- the existing name is removed and then opened without O_CREAT: that fails (finding F2, not repaired here)
+      -- access mode CREATE on an existing name (finding F2 repaired): the object is removed and created afresh; this
+      -- handle owns the new one (handles opened before keep their mapping of the old object)
       nameUnlink name
-      let e' ← setErr e
-      freeB key
-      freeB a
-      return (none, e')
+      nameCreate name 0
+      let m ← mmap semMapLen
+      return (some ⟨a, key, name, m, true⟩, e)
     else do
       let m ← mmap semMapLen
       return (some ⟨a, key, name, m, false⟩, e)
